@@ -407,11 +407,13 @@ theorem step_disciplined {base : Nat} {h0 : Heap} {ab ab' : Abs} {fr : Frame} (a
     simp only [absStep] at hs
     split at hs
     · simp at hs
-    · simp only [Option.some.injEq] at hs; subst hs
+    · rename_i hv
+      simp only [Option.some.injEq] at hs; subst hs
+      have hv' : ab.view = false := by simpa using hv
       simp only [step]
       split
-      · exact ⟨fz, oa, ⟨nv, cfresh, cff⟩⟩
-      · exact ⟨fz, oa, ⟨nv, cfresh, cff⟩⟩
+      · exact ⟨fz, oa, ⟨fun _ => nv hv', by simp, by simp⟩⟩
+      · exact ⟨fz, oa, ⟨fun _ => nv hv', by simp, by simp⟩⟩
   | unpublish =>
     simp only [absStep, Option.some.injEq] at hs; subst hs
     exact ⟨fz, oa, ⟨nv, cfresh, cff⟩⟩
